@@ -4,6 +4,7 @@
 -/
 import KcacheModel.Ctrl
 import KcacheModel.Proofs.Ctrl
+import KcacheModel.Proofs.CtrlWitness
 namespace KC.C14
 open KC AL
 
@@ -69,6 +70,14 @@ theorem stop_causes (k : StopKind) :
   cases k <;> simp
 
 end
+/-! non-vacuity: in the reachable, ready state of Proofs/CtrlWitness.lean a list failure is enabled; it stops the
+controller with its cause and leaves Ready() closed; after a watch failure (session end) the controller still runs -/
+example : CtrlWitness.w6.enabled CtrlWitness.kk CtrlWitness.vv (.listFail .listError) ∧
+    (CtrlWitness.w6.step CtrlWitness.kk CtrlWitness.vv CtrlWitness.aa (.listFail .listError)).stopped = some .listError ∧
+    (CtrlWitness.w6.step CtrlWitness.kk CtrlWitness.vv CtrlWitness.aa (.listFail .listError)).ready = true ∧
+    (CtrlWitness.w6.step CtrlWitness.kk CtrlWitness.vv CtrlWitness.aa .sessEnd).running = true :=
+  ⟨⟨rfl, by decide⟩, rfl, rfl, rfl⟩
+
 end KC.C14
 
 #print axioms KC.C14.list_failure_stops
